@@ -185,6 +185,60 @@ theorem partition_inv {p : Proj} (g : Good p) (ops : List Op) :
 theorem history_conserved {p : Proj} (g : Good p) (ops : List Op) : Conserved p (run p ops) :=
   conserved_of_carried (partition_inv g ops).1.1 (partition_inv g ops).2
 
+/-- "enabled services are active under the recorded profiles" (what a load establishes) is kept by every operation -/
+theorem profilesOK_step {p q : Proj} (h : Partition p) (ok : ProfilesOK p) (o : Op) (hq : applyOp p o = .ok q) :
+    ProfilesOK q := by
+  cases o with
+  | profiles P => cases hq; exact withProfiles_profilesOK h P
+  | enable ns =>
+    cases hq
+    rcases withServicesEnabled_eq p ns with e | e
+    · rw [e]; exact ok
+    · rw [e]; exact withProfiles_profilesOK h _
+  | disable ns =>
+    cases hq
+    intro kv hkv
+    have hl := lookup_of_mem (withServicesDisabled_partition h ns).1 (show (kv.1, kv.2) ∈ _ from hkv)
+    rw [lookup_withServicesDisabled_services] at hl
+    split at hl
+    · cases hl
+    · cases hs : lookup kv.1 p.services with
+      | none => simp [hs] at hl
+      | some s =>
+        simp only [hs, Option.map_some, Option.some.injEq] at hl
+        have := ok (kv.1, s) (mem_of_lookup hs)
+        show Active kv.2 (withServicesDisabled p ns).profiles
+        rw [withServicesDisabled_profiles, ← hl]
+        exact this
+  | select ns pol =>
+    by_cases hn : ns = []
+    · subst hn; cases hq; exact ok
+    · cases hw : forEachService p ns pol with
+      | ok set =>
+        simp only [applyOp] at hq
+        rw [withSelectedServices_ok h.1 hn hw] at hq; cases hq
+        intro kv hkv
+        obtain ⟨s, hm, _, e⟩ := mem_selectedPruned (show kv ∈ selectedPruned set p.services from hkv)
+        show Active kv.2 (withServicesDisabled p _).profiles
+        rw [withServicesDisabled_profiles, e]
+        exact ok (kv.1, s) hm
+      | noSuchService =>
+        have : ns.isEmpty = false := by cases ns <;> simp_all
+        simp [applyOp, withSelectedServices, hw, this] at hq
+      | outOfFuel => exact absurd hw (forEachService_fuel h.1 ns pol)
+  | prune => cases hq; exact ok
+
+/-- hence by every history -/
+theorem profilesOK_inv {p : Proj} (g : Good p) (ok : ProfilesOK p) (ops : List Op) : ProfilesOK (run p ops) := by
+  induction ops generalizing p with
+  | nil => exact ok
+  | cons o os ih =>
+    rw [run_cons]
+    cases ho : applyOp p o with
+    | ok q => exact ih (partition_step g o ho).1 (profilesOK_step g.1 ok o ho)
+    | err => exact ih g ok
+    | fuel => exact ih g ok
+
 /-! ## function of receiver and arguments: independence of Go's map iteration order -/
 
 /-- `WithProfiles` is a function of the project and the profile list, whatever the iteration order -/
